@@ -46,7 +46,13 @@ BackSeqs  == { <<[s |-> 1, w |-> -1]>>,
                <<[s |-> 2, w |-> -1], [s |-> 1, w |-> 4], [s |-> 3, w |-> -1]>>,
                <<[s |-> 3, w |-> 2], [s |-> 2, w |-> 2]>>,
                <<[s |-> 1, w |-> 0], [s |-> 3, w |-> 7]>>,
-               <<[s |-> 2, w |-> 200], [s |-> 3, w |-> 1]>> }
+               <<[s |-> 2, w |-> 200], [s |-> 3, w |-> 1]>>,
+               \* s = 9: a Service that does not exist -- the reference is skipped, the others keep their own weights
+               <<[s |-> 9, w |-> 1], [s |-> 1, w |-> 3], [s |-> 2, w |-> 1]>>,
+               <<[s |-> 3, w |-> 5], [s |-> 9, w |-> 9], [s |-> 1, w |-> 1]>> }
+
+(* replicas behind a backendRef *)
+ReplOf(s) == IF s = 9 THEN 0 ELSE s
 
 Listener == [proto : Protos, host : {"own", "none"}, kinds : KindsVals, from : FromVals]
 Ref      == [name : RefNames, ns : RefNs, section : Sections, kind : RefKinds, group : RefGroups]
